@@ -684,6 +684,7 @@ func (s *Server) Invoke(responseWriter http.ResponseWriter, invoke *interop.Invo
 		invoke.DeadlineNs = fmt.Sprintf("%d", metering.Monotime()+reserveResp.Token.FunctionTimeout.Nanoseconds())
 		go func() {
 			if initCompletionResp, err := s.awaitInitialized(); err != nil {
+				verifAt("server.initWaitFailed")
 				switch err {
 				case ErrInitResetReceived, ErrInitDoneFailed:
 					// For init failures, cache the response so they can be checked later
